@@ -261,7 +261,13 @@ func digestD(p clip.PathsD) uint64 {
 // Outcome encoding: a canonical, human-readable, bit-exact text form
 // ---------------------------------------------------------------------------
 
-type Enc struct{ b []byte }
+type Enc struct {
+	b []byte
+	// result paths seen while encoding (aliases, not copies): the
+	// result-stability monitor checks later that nobody wrote to them
+	k64 []clip.Path64
+	kD  []clip.PathD
+}
 
 func (e *Enc) s(x string) *Enc { e.b = append(e.b, x...); return e }
 func (e *Enc) int(v int64) *Enc {
@@ -289,6 +295,9 @@ func (e *Enc) boolean(tag string, v bool) *Enc {
 	return e.s("=false ")
 }
 func (e *Enc) path64(p clip.Path64) *Enc {
+	if len(p) > 0 {
+		e.k64 = append(e.k64, p)
+	}
 	e.s("[")
 	for i, pt := range p {
 		if i > 0 {
@@ -299,6 +308,9 @@ func (e *Enc) path64(p clip.Path64) *Enc {
 	return e.s("]")
 }
 func (e *Enc) pathD(p clip.PathD) *Enc {
+	if len(p) > 0 {
+		e.kD = append(e.kD, p)
+	}
 	e.s("[")
 	for i, pt := range p {
 		if i > 0 {
@@ -368,6 +380,8 @@ type Outcome struct {
 	scale float64 // for D results: 10^precision
 	isD   bool
 	hasG  bool // geometry fields are set
+	k64   []clip.Path64
+	kD    []clip.PathD
 }
 
 func (o *Outcome) key() string {
@@ -419,6 +433,7 @@ func protect(budget int64, f func(e *Enc, out *Outcome)) (out Outcome) {
 			out.Panic = panicText(r)
 		}
 		out.Enc = e.String()
+		out.k64, out.kD = e.k64, e.kD
 	}()
 	f(&e, &out)
 	return
@@ -427,4 +442,22 @@ func protect(budget int64, f func(e *Enc, out *Outcome)) (out Outcome) {
 // isKill recognises the scheduler's kill signal, which must not be swallowed.
 func isKill(r any) bool {
 	return vsimrt.IsKilled(r)
+}
+
+func digPath64(p clip.Path64) uint64 {
+	h := uint64(14695981039346656037)
+	for _, pt := range p {
+		h = (h ^ uint64(pt.X)) * 1099511628211
+		h = (h ^ uint64(pt.Y)) * 1099511628211
+	}
+	return h
+}
+
+func digPathD(p clip.PathD) uint64 {
+	h := uint64(14695981039346656037)
+	for _, pt := range p {
+		h = (h ^ math.Float64bits(pt.X)) * 1099511628211
+		h = (h ^ math.Float64bits(pt.Y)) * 1099511628211
+	}
+	return h
 }
